@@ -68,6 +68,7 @@ fn main() {
         "C16" => props::c16::run(rest),
         "C17" => props::c17::run(rest),
         "C18" => props::c18::run(rest),
+        "C20" => props::c20::run(rest),
         other => {
             eprintln!("unknown command {other}");
             2
